@@ -21,7 +21,9 @@
 
    State: the complete listing `full` (chosen in Init among the well-formed
    mono / PARA listings up to MaxLines significant lines and MaxEditions
-   editions), the number `pos` of complete lines of the prefix, the cut class
+   editions; both layouts with and without the "Edition after batch number"
+   line; in PARA listings several response blocks per edition, each with its
+   own "number of batches used" count), the number `pos` of complete lines of the prefix, the cut class
    `cut` of the (pos+1)-th line when the file ends inside it, and two scanner
    states for that prefix:
 
@@ -39,7 +41,8 @@
 EXTENDS Integers, Sequences, FiniteSets, TLC
 
 CONSTANTS MaxLines,      \* longest complete listing enumerated
-          MaxEditions,   \* 1 or 2
+          MaxEditions,   \* 1, 2 or 3
+          MinEditions,   \* parallel-job listings with fewer editions are left out (1: none is)
           Modes,         \* subset of {"mono", "para", "fatal"}
           Rich           \* TRUE: all optional lines; FALSE: a thinner family
 
@@ -202,9 +205,9 @@ N(k, n) == [kind |-> k, num |-> <<n>>]
 Opt(s) == IF Rich THEN {<<>>, s} ELSE {s}
 RichOnly(s) == IF Rich THEN s ELSE {}
 
-BatchOf(e) == IF e = 1 THEN 12 ELSE 25      \* two digits: a cut inside the digits exists
-TimeOf(e) == IF e = 1 THEN 34 ELSE 57
-ElapsedOf(e) == IF e = 1 THEN 41 ELSE 68
+BatchOf(e) == CASE e = 1 -> 12 [] e = 2 -> 25 [] OTHER -> 38   \* two digits: a cut inside the digits exists
+TimeOf(e) == CASE e = 1 -> 34 [] e = 2 -> 57 [] OTHER -> 79
+ElapsedOf(e) == CASE e = 1 -> 41 [] e = 2 -> 68 [] OTHER -> 93
 
 HeadMono == {c \o b \o w \o <<N("init", 13)>> :
                c \in {<<>>, <<P("comment")>>}, b \in Opt(<<N("batch", 30)>>), w \in {<<>>, <<P("warning")>>}}
@@ -221,11 +224,28 @@ EdMono(e, flag) ==
 EdMonoThin(e, flag) == {<<N("batchnum", BatchOf(e)), P("results"), N("edition", BatchOf(e)), N(flag, TimeOf(e))>>,
                         <<N("batchnum", BatchOf(e)), P("results"), N(flag, TimeOf(e))>>}
 
-(* PARA edition: the batch number is the largest "number of batches used" *)
-EdPara(e) ==
-   {eo \o <<P("results")>> \o us \o <<N("simtime", TimeOf(e)), N("elapsed", ElapsedOf(e))>> :
-       eo \in {<<>>, <<N("elapsed", 6)>>},
-       us \in {<<N("used", BatchOf(e))>>, <<N("used", BatchOf(e) - 2), N("used", BatchOf(e))>>}}
+(* PARA edition e.  Every response block of an edition ends with its own "number of
+   batches used" line; the counts differ inside an edition (a score that discards its
+   first batches / packets has used fewer) and may coincide across editions.  The batch
+   number of the edition is the GREATEST of them (BatchOf(e)), wherever it stands:
+     <<Prev, B>>      greatest last   (Prev = greatest of the previous edition)
+     <<Low, B, Low>>  greatest neither first nor last; Low is shared by all editions
+     <<B>>, <<B, Low>> (Rich)
+   withEd: the layout with an "Edition after batch number" line (as in mono listings) *)
+LowUsed == 10
+PrevUsed(e) == IF e = 1 THEN LowUsed ELSE BatchOf(e - 1)
+UsedSeqs(e) ==
+   {<<N("used", PrevUsed(e)), N("used", BatchOf(e))>>,
+    <<N("used", LowUsed), N("used", BatchOf(e)), N("used", LowUsed)>>}
+   \cup RichOnly({<<N("used", BatchOf(e))>>, <<N("used", BatchOf(e)), N("used", LowUsed)>>})
+ElapsedBefore == {<<>>, <<N("elapsed", 6)>>}        \* "elapsed time" printed outside a result block
+EdPara(e, withEd, eos) ==
+   {eo \o <<P("results")>> \o ed \o us \o <<N("simtime", TimeOf(e)), N("elapsed", ElapsedOf(e))>> :
+       eo \in eos,
+       ed \in {IF withEd THEN <<N("edition", BatchOf(e))>> ELSE <<>>},
+       us \in UsedSeqs(e)}
+(* which editions carry the "Edition after batch number" line: all or none (Rich: any mix) *)
+EdLines(n) == IF Rich THEN [1 .. n -> BOOLEAN] ELSE {[i \in 1 .. n |-> b] : b \in BOOLEAN}
 
 Tails == {g \o n : g \in {<<>>, <<P("genhdr"), P("counter")>>}, n \in {<<>>, <<P("normal")>>}}
 
@@ -234,12 +254,28 @@ ProtoMono ==
        two == IF MaxEditions < 2 THEN {}
               ELSE {h \o e1 \o e2 \o t : h \in HeadMono, e1 \in IF Rich THEN EdMono(1, "simtime") ELSE EdMonoThin(1, "simtime"),
                                          e2 \in EdMonoThin(2, "simtime"), t \in Tails}
-   IN one \cup two
+       three == IF MaxEditions < 3 THEN {}
+                ELSE {h \o e1 \o e2 \o e3 \o t : h \in HeadMono, e1 \in EdMonoThin(1, "simtime"), e2 \in EdMonoThin(2, "simtime"),
+                                                  e3 \in EdMonoThin(3, "simtime"), t \in Tails}
+   IN one \cup two \cup three
 ProtoPara ==
-   LET one == {h \o e1 \o t : h \in HeadPara, e1 \in EdPara(1), t \in Tails}
-       two == IF MaxEditions < 2 THEN {}
-              ELSE {h \o e1 \o e2 \o t : h \in HeadPara, e1 \in EdPara(1), e2 \in EdPara(2), t \in Tails}
-   IN one \cup two
+   LET no == {<<>>}
+       one == IF MinEditions > 1 THEN {}
+              ELSE UNION {{h \o e1 \o t : h \in HeadPara, e1 \in EdPara(1, w[1], ElapsedBefore), t \in Tails} : w \in EdLines(1)}
+       two == IF MaxEditions < 2 \/ MinEditions > 2 \/ MaxLines < 10 THEN {}
+              ELSE UNION {{h \o e1 \o e2 \o t :
+                              h \in IF Rich THEN HeadPara ELSE {<<N("tasks", 8), N("packet", 20), N("init", 13)>>},
+                              e1 \in EdPara(1, w[1], IF Rich THEN ElapsedBefore ELSE no),
+                              e2 \in EdPara(2, w[2], IF Rich THEN ElapsedBefore ELSE {<<N("elapsed", 6)>>}),
+                              t \in IF Rich THEN Tails ELSE {<<>>, <<P("normal")>>}} : w \in EdLines(2)}
+       three == IF MaxEditions < 3 \/ MaxLines < 14 THEN {}     \* (14 lines: the shortest of them)
+                ELSE UNION {{h \o e1 \o e2 \o e3 \o t :
+                                h \in IF Rich THEN HeadPara ELSE {<<N("tasks", 8), N("init", 13)>>},
+                                e1 \in EdPara(1, w[1], IF Rich THEN ElapsedBefore ELSE no),
+                                e2 \in EdPara(2, w[2], IF Rich THEN ElapsedBefore ELSE no),
+                                e3 \in EdPara(3, w[3], no),
+                                t \in IF Rich THEN Tails ELSE {<<P("normal")>>}} : w \in EdLines(3)}
+   IN one \cup two \cup three
 (* a job that dies with a FATAL ERROR before / after the initialisation: no result *)
 ProtoFatal == {<<N("batch", 30), P("fatal"), P("other")>>,
                <<N("init", 13), P("fatal"), P("other")>>,
@@ -260,6 +296,14 @@ TruthFrom(lines, i, open) ==
         THEN <<[first |-> open, last |-> i, time |-> Num(lines[i])]>> \o TruthFrom(lines, i + 1, 0)
    ELSE TruthFrom(lines, i + 1, open)
 Truth(lines) == TruthFrom(lines, 1, 0)
+
+(* what the scanner's documentation says about parallel jobs: the batch number of an
+   edition is the greatest "number of batches used" printed in that edition (or the
+   number of its "Edition after batch number" line when that is greater) *)
+IsPara(lines) == \E i \in DOMAIN lines : lines[i].kind = "tasks"
+SetMax(S) == CHOOSE m \in S : \A x \in S : x <= m
+ParaNumber(lines, a, b) ==
+   SetMax({-1} \cup {Num(lines[j]) : j \in {i \in a .. b : lines[i].kind \in {"used", "edition"} /\ HasNum(lines[i])}})
 
 -----------------------------------------------------------------------------
 (* cut classes of a line: where the file can end inside it *)
@@ -339,6 +383,8 @@ CompleteRecovered ==
                              /\ Last(st.blocks[st.keys[i]].lines) = t[i].last
                              /\ st.blocks[st.keys[i]].endTime = t[i].time
                              /\ st.keys[i] \in OkEditions(st)
+                             /\ IsPara(full) => st.keys[i] = ParaNumber(full, t[i].first, t[i].last)
+      /\ \A i, j \in DOMAIN t : i < j => st.keys[i] < st.keys[j]       \* all retrievable, listing order
       /\ st = Final
 
 NoScanErrorOnCompleteLines == st.status = "run"
@@ -350,5 +396,15 @@ W_PartialStored == ~(st.partial /\ Len(st.keys) >= 1)
 W_CutErrors == ~(cut = "nonum" /\ alt.status = "error")
 W_InterpretedCutWrongTime == ~(cut = "digits" /\ ~Agrees(alt, Final))
 W_InterpretedCutNotATime == ~(cut = "nonum" /\ alt.status = "run" /\ ~Agrees(alt, Final))
+(* the layouts of parallel jobs, all at once: three stored editions, written with "Edition after batch number"
+   lines, whose LAST "number of batches used" lines carry the same value, which is not their batch number *)
+LastUsedOf(n) == LET u == {i \in {st.blocks[n].lines[x] : x \in DOMAIN st.blocks[n].lines} : full[i].kind = "used"}
+                 IN IF u = {} THEN -1 ELSE Num(full[SetMax(u)])
+W_ParaSameLastUsed(withEd) ==
+   ~(st.para /\ Len(st.keys) = 3
+     /\ withEd = (\E i \in 1 .. pos : full[i].kind = "edition")
+     /\ \A i \in 1 .. 3 : LastUsedOf(st.keys[i]) = LastUsedOf(st.keys[1]) /\ LastUsedOf(st.keys[i]) # st.keys[i])
+W_ParaLayoutEdLine == W_ParaSameLastUsed(TRUE)
+W_ParaLayoutNoEdLine == W_ParaSameLastUsed(FALSE)
 W_PrefixKeepsFirstEdition == ~(cut # "none" /\ Len(st.keys) = 1 /\ Len(Final.keys) = 2 /\ st.inBlock)
 =============================================================================
